@@ -260,6 +260,7 @@ def run(m: Model, r: Report, tier: str) -> None:
     # ---------------------------------------------------------------- R9
     wr = m.require_function(f"{DOIP}.DoIPConnection.write_request_raw")
     tr.ack_timeout_handler(m, r, "R9", wr, "self._read_ack")
+    tr.doip_timing_units(m, r, "R9")
     wsrc = [m.mtext(wr, s_) for s_ in ast.walk(wr.node) if isinstance(s_, (ast.Expr, ast.Assign, ast.AugAssign))]
     iw = next((i for i, t in enumerate(wsrc) if t == m.mpat(wr, "self.writer.write(buf)")), None)
     idr = next((i for i, t in enumerate(wsrc) if t == "await self.writer.drain()"), None)
